@@ -22,7 +22,23 @@ fn main() {
             std::fs::create_dir_all(&dir).unwrap();
             std::env::set_current_dir(&dir).unwrap();
             let mut w = checks::c01::build_w3(checks::c01::world_cfg(2, 2)).unwrap();
-            for op in &ops { let o = w.apply_pumped(op); eprintln!("{op} -> {:?}", o.err); w.settle().unwrap(); }
+            for op in &ops {
+                let o = w.apply_pumped(op);
+                eprintln!("{op} -> err={:?} tasks={:?}", o.err, o.tasks);
+                let t = w.settle().unwrap();
+                eprintln!("   settle tasks={:?}", t);
+                match rp::full_check(&w) { Ok(r) => eprintln!("   RP ok cas={:?}", r.cas.iter().map(|c| format!("{} {}", c.cert_uri.rsplit('/').next().unwrap_or(""), c.resources)).collect::<Vec<_>>()), Err(e) => eprintln!("   RP problems: {e:#?}") }
+                for h in w.krill.ca_manager().ca_handles().unwrap() {
+                    let c = w.krill.ca_manager().get_ca(&h).unwrap();
+                    let info = serde_json::to_value(c.as_ca_info()).unwrap();
+                    eprintln!("   {h}: rcs={}", info["resource_classes"].to_string().chars().filter(|c| !c.is_whitespace()).take(0).collect::<String>());
+                    for (rcn, rc) in info["resource_classes"].as_object().unwrap() {
+                        let ks = &rc["keys"];
+                        let kind = ks.as_object().map(|o| o.keys().cloned().collect::<Vec<_>>()).unwrap_or_default();
+                        eprintln!("      rc {rcn}: keys={kind:?}");
+                    }
+                }
+            }
             println!("{}", serde_json::to_string_pretty(&fingerprint::canonical(&w)).unwrap());
             let _ = std::env::set_current_dir("/");
             let _ = std::fs::remove_dir_all(&dir);
@@ -33,6 +49,8 @@ fn main() {
             let code = match id {
                 "C01" => checks::c01::run(&tier, &args),
                 "C09" => checks::c09::run(&tier, &args),
+                "C03" => checks::c03::run(&tier, &args),
+                "C02" => checks::c02::run(&tier, &args),
                 _ => { eprintln!("unknown property {id}"); 2 }
             };
             std::process::exit(code);
